@@ -441,8 +441,66 @@ func (c *Ctx) ruleSubObjRules(rule string) {
 				}
 				return false
 			})
+			// ... and what was checked is what is stored: between the check and the store nothing more is put into the map -
+			// no store into it, no call that is handed it (the descent into the sub-objects below, which fills them in:
+			// a sub-object that appears after the check can switch on a required_if or a conflicts rule of this level)
+			changedAfter := ""
 			if held[b] {
-				c.R.Ok(rule, k, c.M.InstrPos(mu), "value built for an unset sub-object", "stored only where validateFieldInterdependencies of the built map returned nil")
+				for _, b2 := range fn.Blocks {
+					for _, in2 := range b2.Instrs {
+						check, isCall := in2.(*ssa.Call)
+						if !isCall {
+							continue
+						}
+						callee := core.StaticBody(&check.Call)
+						if callee == nil || !strings.HasSuffix(c.M.Key(callee), ".validateFieldInterdependencies") {
+							continue
+						}
+						checks := false
+						for _, a := range check.Call.Args {
+							if sameMapValue(a, built) {
+								checks = true
+							}
+						}
+						if !checks {
+							continue
+						}
+						// instructions that can run after the check and before the store
+						for _, b3 := range fn.Blocks {
+							for _, in3 := range b3.Instrs {
+								if in3 == ssa.Instruction(check) || in3 == ssa.Instruction(mu) {
+									continue
+								}
+								after := (b3 == b2 && instrBefore(check, in3)) || (b3 != b2 && blockReaches(b2, b3, nil))
+								before := (b3 == b && instrBefore(in3, mu)) || (b3 != b && blockReaches(b3, b, nil))
+								if !after || !before {
+									continue
+								}
+								switch y := in3.(type) {
+								case *ssa.MapUpdate:
+									if sameMapValue(y.Map, built) {
+										changedAfter = c.M.InstrPos(y)
+									}
+								case *ssa.Call:
+									if _, isBuiltin := y.Call.Value.(*ssa.Builtin); isBuiltin {
+										continue
+									}
+									for _, a := range y.Call.Args {
+										if sameMapValue(a, built) {
+											changedAfter = c.M.InstrPos(y)
+										}
+									}
+								}
+							}
+						}
+					}
+				}
+			}
+			if held[b] && changedAfter != "" {
+				c.R.Bad(rule, k, c.M.InstrPos(mu), "the map built for an unset sub-object is filled further after its presence rules were evaluated",
+					"at "+changedAfter+" the map that was checked is handed to a call (or stored into) before it is stored: a sub-object that is filled in after the check can make a required_if or conflicts rule of the level apply, the half-made value is stored all the same, and an input whose only fault is a missing required sub-object is refused for a property inside it that nobody wrote")
+			} else if held[b] {
+				c.R.Ok(rule, k, c.M.InstrPos(mu), "value built for an unset sub-object", "stored only where validateFieldInterdependencies of the built map returned nil, and nothing is put into the map between that check and the store")
 			} else {
 				c.R.Bad(rule, k, c.M.InstrPos(mu), "a sub-object built from defaults is stored without its presence rules having been evaluated",
 					"an optional sub-object that the input left out is built from its defaults although they break a required / required_if / required_if_not rule of the sub-object: the input is refused for a property inside the sub-object that nobody wrote (the map-based twin accepts it)")
